@@ -27,6 +27,7 @@ import (
 // metricLoader implements flow.DataLoader interface that loads metric data from file storage.
 type metricLoader struct {
 	reader             MetricReader
+	readFieldIndexes   []int // query field index => field index of metric block
 	lowContainer       roaring.Container
 	lowKeyOffsets      *encoding.FixedOffsetDecoder
 	seriesEntriesBlock []byte
@@ -35,6 +36,7 @@ type metricLoader struct {
 // newMetricLoader creates a file storage metric loader.
 func newMetricLoader(
 	reader MetricReader,
+	readFieldIndexes []int,
 	seriesEntriesBlock []byte,
 	lowContainer roaring.Container,
 	lowKeyOffsets *encoding.FixedOffsetDecoder,
@@ -42,6 +44,7 @@ func newMetricLoader(
 	return &metricLoader{
 		seriesEntriesBlock: seriesEntriesBlock,
 		reader:             reader,
+		readFieldIndexes:   readFieldIndexes,
 		lowContainer:       lowContainer,
 		lowKeyOffsets:      lowKeyOffsets,
 	}
@@ -55,6 +58,6 @@ func (s *metricLoader) Load(loadCtx *flow.DataLoadContext) {
 			return
 		}
 		// read series data of fields
-		s.reader.readSeriesData(loadCtx, seriesIdxFromQuery, seriesEntry)
+		s.reader.readSeriesData(loadCtx, s.readFieldIndexes, seriesIdxFromQuery, seriesEntry)
 	})
 }
